@@ -59,6 +59,10 @@ NAMED = {
     "backticks": lambda n: "`" * n,
     "backtick_words": lambda n: "`a " * n,
     "backtick_lengths": lambda n: "".join("`" * (i % 40 + 1) + "a" for i in range(max(1, n // 21))),
+    "bracket_backtick_lengths": lambda n: "[" + "".join("`" * (i % 40 + 1) + "a" for i in range(max(1, n // 21))),
+    "image_backtick_lengths": lambda n: "![" + "".join("`" * (i % 40 + 1) + "a" for i in range(max(1, n // 21))) + "](u)",
+    "link_backtick_staircase": lambda n: "[" + "".join("`" * (i + 1) + "x" for i in range(max(1, int((2 * n) ** 0.5)))) + "](u)",
+    "backtick_staircase": lambda n: "".join("`" * (i + 1) + "x" for i in range(max(1, int((2 * n) ** 0.5)))),
     "entities_amp": lambda n: "&" * n,
     "entities_valid": lambda n: "&amp;" * n,
     "entities_numeric": lambda n: "&#1;" * n,
